@@ -254,10 +254,11 @@ theorem stringToDate_dateText (y : Int) (m d : Nat) (h0 : 0 ≤ y) (h1 : y ≤ 9
   rw [hp, hy]
   by_cases hv : validDate y m d = true
   · have hb := validDate_bounds hv
-    simp [hb, parseItems, toNaiveDate_ymd y m d none, hv, optEqOr, finish, encode, encodeMs, DT.totalMs, bind, Except.bind, pure, Except.pure]
+    simp [hb, parseItems, toNaiveDate_ymd y m d none, hv, optEqOr, finish, encode, encodeMs, DT.totalMs,
+      dateOverflow_isoWeek_none, Except.map]
   · by_cases hb : (1 ≤ m ∧ m ≤ 12) ∧ (1 ≤ d ∧ d ≤ 31)
-    · simp [hb, parseItems, toNaiveDate_ymd y m d none, hv, finish, bind, Except.bind, PErr.msg]
-    · simp [hb, hv, finish, bind, Except.bind, PErr.msg]
+    · simp [hb, parseItems, toNaiveDate_ymd y m d none, hv, finish, PErr.msg, dateOverflow_isoWeek_none, Except.map]
+    · simp [hb, hv, PErr.msg]
 
 theorem stringToTime_timeText (h mi s : Nat) (hh : h < 100) (hmi : mi < 100) (hs : s < 100) :
     stringToTime [(.str (timeText h mi s) : Value N)] =
@@ -306,11 +307,14 @@ theorem stringToDatetime_datetimeText (y : Int) (m d h mi s : Nat) (h0 : 0 ≤ y
   have ht := toNaiveTime_hms
     ({ year := some y, month := some m, day := some d, hourDiv12 := some (h / 12), hourMod12 := some (h % 12),
        minute := some mi, second := some s } : Parsed) h mi s none rfl rfl rfl rfl rfl
-  have hdte : Parsed.toNaiveDate { year := some y, month := some m, day := some d, hourDiv12 := some (h / 12), hourMod12 := some (h % 12), minute := some mi, second := some s } = .ok (daysFromCivil y m d) := by
-    simp [Parsed.toNaiveDate, resolveYear, fromYmd, hv, verifyIsoWeekDate, verifyOrdinal, optEqOr]
+  have hdte := toNaiveDate_ymd_of
+    ({ year := some y, month := some m, day := some d, hourDiv12 := some (h / 12), hourMod12 := some (h % 12),
+       minute := some mi, second := some s } : Parsed) y m d none rfl rfl rfl rfl rfl rfl rfl rfl rfl rfl rfl rfl rfl
+  rw [if_pos hv] at hdte
   have h60 : ¬ s = 60 := by omega
   have h4 : min s 59 = s := by omega
-  simp only [bind, Except.bind, Parsed.toNaiveDatetime, hdte, ht]
+  simp only [parseItems, datetimeOverflow_ok _ 0 rfl _ _ hdte ht, Bool.false_eq_true, if_false, bind, Except.bind,
+    Parsed.toNaiveDatetime, hdte, ht, optEqOr, if_true]
   simp [rejectLeap, h60, h4, finish, pure, Except.pure, NDT.millis, NDT.timestamp, encode, encodeMs, DT.totalMs, msPerDay]
   congr 2; omega
 
